@@ -24,6 +24,12 @@ What is fake (this file): everything else those files import from `hail`:
       injection (see `FSView`).  Two flavours: 'atomic' (object store: an object appears at close, a crash before close
       leaves the old object) and 'posix' (open(...,'w') truncates at once; a crash before close leaves a prefix).
     * `uuid.uuid4` inside the loaded combiner module is drawn from the run's choice stream.
+    * engine failures: every call that would run a query (header read, GVCF import, dataset read / write, aggregate,
+      count, repartitioning statistics) is numbered per process (`CUR.engine_op`); the call whose number equals
+      `Process.fault[0]` raises `EngineFault` (a FatalError, like a real lost worker / storage error).  A failed
+      write leaves nothing (flavour 0) or part files without _SUCCESS (flavour 1).  Writing over an existing path
+      without overwrite=True raises `PathExists` (FatalError "file already exists"), as the real engine does.
+    * `BigList`: an import-interval list of a claimed length (> 150,000) of which only the first entries exist.
 """
 import collections
 import functools
@@ -59,6 +65,36 @@ class HarnessGap(Exception):
 
 class FatalError(Exception):
     """hail.utils.FatalError"""
+
+
+class EngineFault(FatalError):
+    """an injected transient failure of the query engine (lost worker, quota, storage hiccup): the engine call raises,
+    as real hail does, a FatalError that the combiner does not handle; it propagates out of step() / run()."""
+
+
+class PathExists(FatalError):
+    """the engine refuses to write over an existing path (write without overwrite=True)."""
+
+    def __init__(self, path):
+        super().__init__(f'FakeHail: file already exists: {path}')
+        self.path = path
+
+
+class BigList(list):
+    """an interval list whose LENGTH is `claimed` (say 150,001 exome targets) while only its first few entries are
+    materialised: the combiner plan code uses the list through len() (task-limit arithmetic), truthiness, [0] and
+    iteration (building the partitioning, which the fake engine ignores); only len() / bool() see the claimed size.
+    FakeHail's tarray JSON conversion carries the claimed length through a saved plan (see tarray)."""
+
+    def __init__(self, items, claimed):
+        super().__init__(items)
+        self.claimed = max(int(claimed), list.__len__(self))
+
+    def __len__(self):
+        return self.claimed
+
+
+_CLAIMED = '__sim_claimed_len__'
 
 
 # ----------------------------------------------------------------------------------------------------------------
@@ -121,9 +157,14 @@ class tarray(HailType):
         return f'{self._tag}<{self.element_type}>'
 
     def _convert_to_json(self, x):
-        return [self.element_type._convert_to_json_na(e) for e in x]
+        out = [self.element_type._convert_to_json_na(e) for e in x]
+        if isinstance(x, BigList):
+            out.append({_CLAIMED: x.claimed})  # stands for the (claimed - materialised) entries not written out
+        return out
 
     def _convert_from_json(self, x, _should_freeze=False):
+        if x and isinstance(x[-1], dict) and _CLAIMED in x[-1]:
+            return BigList([self.element_type._convert_from_json_na(e, _should_freeze) for e in x[:-1]], x[-1][_CLAIMED])
         return [self.element_type._convert_from_json_na(e, _should_freeze) for e in x]
 
 
@@ -556,6 +597,7 @@ def _header_of(path):
 
 def get_vcf_header_info(path, filter=None, find=None, replace=None):
     CUR.tick()
+    CUR.engine_op('header')
     if isinstance(path, str):
         return Expr('lit', pyval=_header_of(path))
     d = path.__dict__
@@ -576,6 +618,7 @@ def import_gvcf_interval(path, file_num, contig, start, end, header_info, call_f
     w = CUR.world
     if p not in w.gvcfs or not w.fs_exists(p):
         raise FatalError(f'FakeHail: GVCF {p} does not exist')
+    CUR.engine_op('import')
     CUR.n_imports += 1
     return Expr('gvcf_stream', dtype=tstream(w.gvcf_row_type), ir=IRNode('ImportGVCF', prov={p: 1}))
 
@@ -773,12 +816,14 @@ class _Relational:
     # -- actions ----------------------------------------------------------------------------------------------
     def aggregate(self, expr, _localize=True):
         CUR.tick()
+        CUR.engine_op('aggregate')
         return _aggregate(expr)
 
     aggregate_entries = aggregate_rows = aggregate
 
     def count_cols(self):
         CUR.tick()
+        CUR.engine_op('count')
         return CUR.world.n_cols_of(self._irn.prov)
 
     def count(self):
@@ -850,6 +895,7 @@ def import_vcf(path, force=False, force_bgz=False, header_file=None, min_partiti
     p = path if isinstance(path, str) else path[0]
     if p not in w.gvcfs or not w.fs_exists(p):
         raise FatalError(f'FakeHail: GVCF {p} does not exist')
+    CUR.engine_op('import_vcf')
     return MatrixTable(IRNode('MatrixVCFRead', prov={p: 1},
                               meta=_meta(entry=w.gvcf_entry_type, info=w.gvcf_info_type, mtype=w.gvcf_mtype)))
 
@@ -931,6 +977,7 @@ def fake_calculate_new_intervals(mt, desired_average_partition_size, tmp_path):
     CUR.tick()
     if not isinstance(mt, MatrixTable):
         raise HarnessGap('calculate_new_intervals: expected a MatrixTable')
+    CUR.engine_op('intervals')
     rg = CUR.world.rg
     Locus = CUR.mods['hail.genetics.locus'].Locus
     Interval = CUR.mods['hail.utils.interval'].Interval
@@ -1070,6 +1117,8 @@ class FSView:
             self._die('close_w', h.path, 'before')
         self.world.files[h.path] = data
         if self.world.is_plan_path(h.path) and not h.path.endswith('.bak'):
+            if self.world.plan_observer is not None:
+                self.world.plan_observer(h.path, data)
             self.proc.n_saves += 1
             if self.proc.n_saves > self.world.save_bound:
                 raise SimStepLimit(f'{self.proc.n_saves} plan saves in one process, bound {self.world.save_bound}')
@@ -1087,8 +1136,13 @@ def _cut(n, num):
 class Process:
     """one incarnation of the python process running the combiner."""
 
-    def __init__(self, crash=None):
+    def __init__(self, crash=None, fault=None):
         self.crash = crash  # None | (plan_op_index, 'before') | (plan_op_index, 'torn', num)
+        self.fault = fault  # None | (engine_call_index, flavour): that engine call raises EngineFault; flavour 1 = a
+        #                     failed dataset write leaves part files (no _SUCCESS) behind, 0 = it leaves nothing
+        self.n_engine_ops = 0
+        self.engine_ops = []
+        self.failed_at = None
         self.dead = False
         self.died_at = None
         self.n_plan_ops = 0
@@ -1145,6 +1199,8 @@ class World:
         self.rg = None
         self.plan_path = None       # explicit save_path, or None (autogenerated under temp/combiner-plans/)
         self.save_bound = 10 ** 9
+        self.plan_observer = None   # callable(path, text): runs whenever a complete plan file becomes durable
+        self.plan_findings = []
         self.n_dataset_writes = 0
         self.overwritten = 0
         self.locus_type = None
@@ -1176,11 +1232,16 @@ class World:
         path = path.rstrip('/')
         if self.fs_exists(path):
             if not overwrite:
-                raise FatalError(f'FakeHail: file already exists: {path}')
+                raise PathExists(path)
             self.overwritten += 1
             for q in [q for q in self.files if q.startswith(path + '/')]:
                 del self.files[q]
             self.datasets.pop(path, None)
+        f = CUR.engine_op('write', fire=False)
+        if f is not None:
+            if f[1] == 1:  # the write job died half-way: part files exist, no _SUCCESS, not a readable dataset
+                self.files[path + '/metadata.json.gz'] = 'sim'
+            CUR.engine_fail('write')
         irn = table._irn
         m = irn.meta
         self.n_dataset_writes += 1
@@ -1203,6 +1264,7 @@ class World:
         path = path.rstrip('/')
         if path not in self.datasets or (path + '/_SUCCESS') not in self.files:
             raise FatalError(f'FakeHail: MatrixTable at {path} does not exist or is incomplete')
+        CUR.engine_op('read')
         return self.datasets[path]
 
     def derived_mtype(self, key):
@@ -1233,6 +1295,27 @@ class _Cur:
         self.ticks += 1
         if self.ticks > self.tick_cap:
             raise SimStepLimit(f'more than {self.tick_cap} FakeHail calls in one process: the combiner does not terminate')
+
+    def engine_op(self, kind, fire=True):
+        """a numbered call into the query engine (fault point).  Returns the process's fault spec if this is the call
+        the fault is scheduled at (raising EngineFault itself when `fire`), else None."""
+        pr = self.proc
+        if pr is None:
+            return None
+        idx = pr.n_engine_ops
+        pr.n_engine_ops += 1
+        pr.engine_ops.append(kind)
+        f = pr.fault
+        if f is None or f[0] != idx or pr.dead:
+            return None
+        if fire:
+            self.engine_fail(kind)
+        return f
+
+    def engine_fail(self, kind):
+        pr = self.proc
+        pr.failed_at = (kind, pr.n_engine_ops - 1)
+        raise EngineFault(f'FakeHail: injected transient engine failure in {kind} (engine call #{pr.n_engine_ops - 1})')
 
 
 CUR = _Cur()
